@@ -489,7 +489,12 @@ static void put_utf8(std::string &s, uint32_t cp) {
 }
 std::string gen_string(Rng &r, bool valid_utf8, bool ascii_only, size_t maxlen) {
     std::string s;
-    size_t n = r.chance(1, 12) ? (size_t)r.range(200, 600) : (size_t)r.below(maxlen + 1);
+    size_t n;
+    if (r.chance(1, 12)) {
+        // long strings: any length in 200..600, or a length next to a power of two (the sizes a fixed scratch buffer could have)
+        static const int base[] = {16, 32, 64, 128, 256, 512, 1024, 4096};
+        n = r.chance(1, 2) ? (size_t)r.range(200, 600) : (size_t)(base[r.below(8)] + 2 - (int)r.below(6));
+    } else n = (size_t)r.below(maxlen + 1);
     if (r.chance(1, 10)) n = 0;
     for (size_t i = 0; i < n; i++) {
         switch (r.below(ascii_only ? 3 : 10)) {
@@ -506,7 +511,22 @@ std::string gen_string(Rng &r, bool valid_utf8, bool ascii_only, size_t maxlen) 
     }
     return s;
 }
+// long keys: lengths sweep across the sizes a fixed scratch buffer could have (powers of two); the body is one letter in
+// random case, so that two long keys of an object agree - after case folding - in a long prefix and differ only near the end
+std::string gen_longkey(Rng &r, bool pointer_chars) {
+    static const int base[] = {16, 32, 64, 128, 256, 512, 1024};
+    size_t len = r.chance(1, 2) ? (size_t)(base[r.below(7)] + 2 - (int)r.below(16)) : (size_t)r.range(1, 300);
+    char c = r.chance(3, 4) ? 'k' : (char)('a' + r.below(26));
+    bool mixed = r.chance(1, 2);
+    std::string k(len, c);
+    if (mixed) for (auto &ch : k) if (r.chance(1, 2)) ch = (char)(ch - 32);
+    size_t tail = (size_t)r.range(0, 3);
+    for (size_t i = 0; i < tail && i < len; i++) k[len - 1 - i] = "abAB01zZ"[r.below(8)];
+    if (pointer_chars && r.chance(1, 4)) k[r.below(len)] = r.chance(1, 2) ? '/' : '~';
+    return k;
+}
 std::string gen_key(Rng &r, const GenOpts &o) {
+    if (r.chance(1, 24)) return gen_longkey(r, o.pointer_keys);
     if (o.case_keys) {
         static const char *ks[] = {"a", "A", "b", "B", "c", "C", "d", "aa", "aA", "Ab"};
         return ks[r.below(10)];
